@@ -115,9 +115,10 @@ PROPS = {
         "assumptions": ["L instantiated with a concrete language tag (R6)"],
     },
     "C16": {
-        "units": [("source", r"get_char_column"), "display"],
+        "units": [("source", r"get_char_column"), "display", "positions"],
         "kani": [],
-        "decided": ["Node::display_context: the shown text is a contiguous run of WHOLE lines around the match (starts at a line start, ends at a line end), with exactly `before`/`after` extra lines unless the file ends first, and start_line is the line of its first byte", "String::get_char_column(offset) == number of UTF-8 lead bytes between the previous line break and the offset, for every text and offset"],
+        "decided": ["Node::display_context: the shown text is a contiguous run of WHOLE lines around the match (starts at a line start, ends at a line end), with exactly `before`/`after` extra lines unless the file ends first, and start_line is the line of its first byte", "String::get_char_column(offset) == number of UTF-8 lead bytes between the previous line break and the offset, for every text and offset",
+                    "json_print::get_range: byteOffset is the node's byte range and start/end are (line breaks before, characters since the last one) of those offsets -- through Node::start_pos/end_pos/range and Position::column (relative to T-node: tree-sitter's byte offsets and points agree with the text)"],
         "not_decided": ["JSON separators / brackets (write!/serde_json), charCount (chars().count()), MatchMerger, path:line:text printing"],
         "assumptions": ["offset lies on a char boundary (tree-sitter node ranges)"],
     },
@@ -131,7 +132,7 @@ PROPS = {
         "assumptions": ["String::from_utf8 on replacement bytes succeeds (UTF-8 sources and templates)", "the edits of a file lie inside its text (Diff::generate == make_edit, proved in bounds in unit replacer)", "the interactive prompt may answer anything (external)"],
     },
     "C19": {
-        "units": [("source", r"get_char_column|position_for_offset"), "traversal"],
+        "units": [("source", r"get_char_column|position_for_offset"), "traversal", ("positions", r"Position|start_pos|end_pos|range")],
         "kani": [],
         "decided": ["line/column positions: position_for_offset == (line breaks before, bytes since the last one); get_char_column == characters since the last line break",
                     "Pre (pre-order / dfs, the iterator behind find_all and Visitor): new() starts with exactly preorder(subtree), every next() yields the head of the remaining pre-order and leaves its tail, None only when nothing is left -- every node of the subtree once, in order, never outside (relative to the T-cursor axioms)"],
